@@ -439,7 +439,7 @@ func (g *gen) listRules(ty *Type) {
 		}
 	case "bool", "date", "key", "enum", "oneof", "any":
 		l.Filterable = ptr(rapid.Bool().Draw(t, "filterable"))
-		if ty.Kind == "enum" || ty.Kind == "bool" {
+		if ty.Kind == "bool" {
 			if rapid.IntRange(0, 2).Draw(t, "deff") == 0 {
 				l.DefaultFilters = []string{"true"}
 			}
